@@ -95,6 +95,10 @@ def dump_json(v):
         return "(JArr %s)" % clist([dump_json(x) for x in v])
     if isinstance(v, str):
         return "(JStr %s)" % cstr(v)
+    if v is None:
+        return "JNull"
+    if isinstance(v, bool):
+        return "(JBool %s)" % cbool(v)
     return "(JOther %s)" % cstr(str(v))
 
 
